@@ -338,6 +338,7 @@ fn run_complex_case(rep: &mut Report, solver: Solver, prob: &GenericProblem, cfg
         extra_items: vec![],
         dim_mismatch: oc.dim_mismatch,
         collect_after: None,
+        euler_min_applied: oc.euler_min_applied,
     };
     let case = || J::obj().set("solver", solver.name()).set("field", "Complex<f64> (state = first n + i last n components of the real problem)").set("mode", format!("{:?}", mode)).set("cfg", cfg.to_json()).set("problem", prob.to_json());
     if out.n_err() > 0 || out.budget_hit {
@@ -425,42 +426,53 @@ fn run_switch_case(rep: &mut Report, solver: Solver, rng: &mut Rng) {
 /// implementation accepts iff estimate <= tol, so the estimate equals hi exactly; an implementation
 /// whose two internal acceptance tests disagree at equality shifts the boundary by one ulp and
 /// misbehaves at one of the two tolerances. Both are solved in full and judged by the C03 oracle.
-fn eq_tol_case(rep: &mut Report, solver: Solver, prob: &GenericProblem, rng: &mut Rng) {
-    let tol_scale = rng.log10(-9.0, -5.0);
-    let dt_max = dtmax_for(solver, prob.lip, tol_scale, 1.0) * rng.r(2.0, 6.0);
-    let dt_min = dt_max * 1e-9;
-    let t0 = rng.r(-1.0, 1.0);
-    let base = Cfg { t0, t1: t0 + (dt_max + dt_min) * 0.5 * rng.r(3.0, 6.0), dt_min, dt_max, tol: 1.0 };
+/// Adjacent floats lo < hi such that the first trial step of `solver` on this problem is rejected
+/// at tolerance lo and accepted at hi (observed through the time of the first yielded point).
+pub fn locate_equal_tolerance(solver: Solver, rhs: &dyn Rhs<f64>, y0: &[f64], base: &Cfg) -> Result<(u64, u64, u64), &'static str> {
     let expect_first = base.t0 + base.dt0();
     let mut probes = 0u64;
     let mut accepted = |tol: f64| -> Option<bool> {
         let cfg = Cfg { tol, ..base.clone() };
-        let out = solve_real(solver, &cfg, &prob.y0, prob, &Opts { budget: 10_000, max_items: 1, mode: DimMode::Dynamic, ..Default::default() });
+        let out = solve_real(solver, &cfg, y0, rhs, &Opts { budget: 10_000, max_items: 1, mode: DimMode::Dynamic, ..Default::default() });
         probes += 1;
         match out.items.first() {
             Some(Item::Ok(t, _)) => Some(*t == expect_first),
             // the minimum-step error before any point: the first trial was certainly not accepted
             Some(Item::Err(_)) => Some(false),
+            // iteration ended without any item (a one-step interval whose only step was not yielded):
+            // not observed as accepted; whether that is legitimate is for the caller's oracle
+            None if out.panic.is_none() && out.build_err.is_none() && !out.budget_hit => Some(false),
             _ => None,
         }
     };
     let (mut lo, mut hi) = (1e-200f64.to_bits(), 1.0f64.to_bits());
-    let (alo, ahi) = (accepted(f64::from_bits(lo)), accepted(f64::from_bits(hi)));
-    if alo != Some(false) || ahi != Some(true) {
-        rep.count(&format!("eq_tol/bracket_not_found lo={:?} hi={:?}", alo, ahi), 1);
-        return;
+    if accepted(f64::from_bits(lo)) != Some(false) || accepted(f64::from_bits(hi)) != Some(true) {
+        return Err("bracket_not_found");
     }
     while hi - lo > 1 {
         let mid = lo + (hi - lo) / 2;
         match accepted(f64::from_bits(mid)) {
             Some(true) => hi = mid,
             Some(false) => lo = mid,
-            None => {
-                rep.count("eq_tol/probe_error", 1);
-                return;
-            }
+            None => return Err("probe_error"),
         }
     }
+    Ok((lo, hi, probes))
+}
+
+fn eq_tol_case(rep: &mut Report, solver: Solver, prob: &GenericProblem, rng: &mut Rng) {
+    let tol_scale = rng.log10(-9.0, -5.0);
+    let dt_max = dtmax_for(solver, prob.lip, tol_scale, 1.0) * rng.r(2.0, 6.0);
+    let dt_min = dt_max * 1e-9;
+    let t0 = rng.r(-1.0, 1.0);
+    let base = Cfg { t0, t1: t0 + (dt_max + dt_min) * 0.5 * rng.r(3.0, 6.0), dt_min, dt_max, tol: 1.0 };
+    let (lo, hi, probes) = match locate_equal_tolerance(solver, prob, &prob.y0, &base) {
+        Ok(v) => v,
+        Err(why) => {
+            rep.count(&format!("eq_tol/{}", why), 1);
+            return;
+        }
+    };
     rep.evals(probes);
     rep.count(&format!("{}/estimate_equals_tolerance_cases", solver.name()), 1);
     for bits in [lo, hi] {
